@@ -24,6 +24,7 @@ Definition unrle (l : rle) : list Z := flat_map (fun p => repeat (fst p) (snd p)
 (* ---- cindex level ---- *)
 Inductive ciop :=
 | COnWrite (first lastr cid mn mx : Z)
+| COnWriteSkip (first lastr cid mn mx : Z)   (* the same while a rebuild of the chunk holds its lock: the TryLock fails *)
 | CPosGE (cid ts : Z)
 | CPosLT (cid ts : Z)
 | CReadData (cid : Z)
@@ -48,6 +49,7 @@ Definition ciobs_eqb (a b : ciobs) : bool :=
 Definition ci_step (ci : cindex) (o : ciop) : cindex * ciobs :=
   match o with
   | COnWrite f l c mn mx => let '(ci', r) := ci_on_write false ci f l c mn mx in (ci', BWrite r)
+  | COnWriteSkip f l c mn mx => let '(ci', r) := ci_on_write true ci f l c mn mx in (ci', BWrite r)
   | CPosGE c ts => (ci, BPos (pos_ge ci c ts))
   | CPosLT c ts => (ci, BPos (pos_lt ci c ts))
   | CReadData c => (ci, BData (ci_read_data ci c))
@@ -76,6 +78,12 @@ Inductive eop :=
                                  (SyncChunks, rebuild requests) is compared, which is that of a fresh read as long as
                                  nothing but write batches happens between the reads of the cursor; what it delivers is
                                  judged by the oracle *)
+| EReadServed (o1 o2 : option Z)   (* a fresh read while the index rebuilder runs freely (not held by the harness): the
+                                      state is observed after the rebuilder has gone idle, i.e. after it has served what
+                                      the read asked for *)
+| ERestart                         (* clean shutdown and start *)
+| EDescribe                        (* Service.GetParitionInfo *)
+| EDescribeServed                  (* the same while the rebuilder runs freely; observed when it is idle again *)
 | ESelOpen (t1 t2 : Z)   (* a chkSelector for [t1,t2] is created, kept, and asked for the status of every chunk *)
 | ESelAgain.             (* the kept selector is asked again (eo_windows = its answers) *)
 (* projection of the state: per chunk of the journal (id, hull if the index knows the chunk, index records if readable) *)
@@ -121,6 +129,10 @@ Definition to_op (o : eop) : op :=
   | EDrop => HDrop
   | ERead o1 o2 => HRead o1 o2
   | ECRead o1 o2 => HRead o1 o2
+  | EReadServed o1 o2 => HRead o1 o2
+  | ERestart => HRestart
+  | EDescribe => HDescribe
+  | EDescribeServed => HDescribe
   | ESelOpen _ _ => HSync     (* not used: handled in e_check_step *)
   | ESelAgain => HSync
   end.
@@ -157,16 +169,18 @@ Definition e_check_step (ss : sel_state) (st : pstate) (o : eop) (b : eobs) : se
   | _ =>
     let st' := match o with
                | EBatchServe _ seen => serve_seen impl_variant (step impl_variant st (to_op o)) seen
+               | EReadServed _ _ | EDescribeServed => serve impl_variant (step impl_variant st (to_op o))
                | _ => step impl_variant st (to_op o)
                end in
     let ok_read :=
       match o with
+      | EReadServed o1 o2 => list_eqb z3_eqb (runs_of (fst (range_read impl_variant st o1 o2)) None) (eo_events b)
       | ERead o1 o2 =>
           list_eqb z3_eqb (runs_of (fst (range_read impl_variant st o1 o2)) None) (eo_events b)
           && match eo_windows b with Some w => list_eqb z3_eqb (windows_of impl_variant st o1 o2) w | None => true end
       | _ => true
       end in
-    (match o with EDrop => None | _ => ss end, st', ok_state st' && ok_read)
+    (match o with EDrop | ERestart => None | _ => ss end, st', ok_state st' && ok_read)
   end.
 Fixpoint e_check (ss : sel_state) (st : pstate) (l : list (eop * eobs)) : bool :=
   match l with
